@@ -381,8 +381,20 @@ def _sign_np():
     mn = ast.unparse(sym.defs.get("min_vals", ast.Name("?")))
     if not (mx.startswith("np.max(data") and mn.startswith("np.min(data")):
         raise TranslationError("max_vals/min_vals are not np.max/np.min of the data")
+    body = f"if {_sign_cond(c)} then {_const_int(a)} else {_const_int(b)}"
     return (f"/-- {header(path, qual, src, fn)}: sign multiplier from the column maximum `mx` and minimum `mn` -/\n"
-            f"def signRuleNumpy (mx mn : Int) : Int :=\n  if {_sign_cond(c)} then {_const_int(a)} else {_const_int(b)}\n")
+            f"def signRuleNumpy (mx mn : Int) : Int :=\n  {body}\n"
+            "/-- the same rule on IEEE doubles (executed by the driver) -/\n"
+            f"def signRuleNumpyF (mx mn : Float) : Float :=\n  {_to_float(body)}\n")
+
+
+def _to_float(s):
+    """re-print an Int-typed sign-rule body over Float (natAbs -> abs, integer literals -> float literals)"""
+    import re
+
+    s = s.replace(".natAbs", ".abs")
+    s = re.sub(r"\((-?\d+) : Int\)", lambda m: f"({float(m.group(1))} : Float)", s)
+    return s
 
 
 def _const_int(e):
@@ -467,7 +479,9 @@ def _sign_xr():
             raise TranslationError("unexpected guard on the real-data refinement: " + gtxt)
         expr = f"if decide (mx {rel} {rhs}) then ({base}) else {_const_int(other)}"
     return (f"/-- {header(path, qual, src, fn)}: sign multiplier for REAL data from the column maximum `mx` and minimum `mn` -/\n"
-            f"def signRuleXarray (mx mn : Int) : Int :=\n  {expr}\n")
+            f"def signRuleXarray (mx mn : Int) : Int :=\n  {expr}\n"
+            "/-- the same rule on IEEE doubles (executed by the driver) -/\n"
+            f"def signRuleXarrayF (mx mn : Float) : Float :=\n  {_to_float(expr)}\n")
 
 
 # ------------------------------------------------------------------------------------- guards on fitted models
